@@ -88,6 +88,41 @@ theorem C06_default_chain_shape :
 theorem C06_through_classic_exactly :
     ∀ r ∈ rows, (Hook.abs .classic ∈ r.chain) ↔ (Abs.classic ∈ r.absDyn) := by decide +kernel
 
+/-! ## (b', c') what the hooks receive is THE NODE that was visited
+
+`fired` / `chain` say WHICH hooks are entered; `handed` says, hook by hook, whether the object each of them received is the
+visited node itself (the same most-derived object), on every live node of the class that the probe observed — first
+declarations and redeclarations (nodes whose `master()` is another node of the same class) alike.  A default hook that
+forwards a relative of the node (its master declaration, its definition, a cached twin) enters the right hook the right
+number of times and is told apart only here. -/
+
+/-- The leaf hook entered by `accept` and every hook of the default chain received the visited node itself, for every
+    implementation class (one entry per hook of `fired` and of `chain`, all `true`). -/
+theorem C06_hooks_receive_visited_node :
+    handed.length = rows.length ∧
+    ∀ p ∈ rows.zip handed,
+      p.2.1.length = p.1.fired.length ∧ p.2.2.length = p.1.chain.length ∧
+      p.2.1.all id = true ∧ p.2.2.all id = true := by decide +kernel
+
+/-- Seen hook by hook: whatever hook `h` the default chain of a row enters at position `i`, the object it received there
+    was the visited node. -/
+theorem C06_default_hook_hands_over_the_node :
+    ∀ p ∈ rows.zip handed, ∀ i, i < p.1.chain.length → p.2.2[i]? = some true := by
+  intro p hp i hi
+  obtain ⟨_, h⟩ := C06_hooks_receive_visited_node
+  obtain ⟨_, hlen, _, hall⟩ := h p hp
+  have hi' : i < p.2.2.length := by omega
+  have := List.all_eq_true.mp hall (p.2.2[i]) (List.getElem_mem hi')
+  simp [List.getElem?_eq_getElem hi', id] at this ⊢
+  exact this
+
+/-- Coverage of that column: every declaration kind (leaf interface derived from `Decl`) was observed on a redeclaration
+    too, except the kinds documented as not redeclarable — and those exceptions are declaration kinds, never observed
+    redeclared. -/
+theorem C06_every_declaration_kind_seen_redeclared :
+    (∀ i ∈ ifaces, Abs.decl ∈ i.bases → (i.code ∈ redeclared) ≠ (i.code ∈ notRedeclarable)) ∧
+    (∀ c ∈ redeclared ++ notRedeclarable, Abs.decl ∈ hier.bases c) := by decide +kernel
+
 /-! ## (d) `view<K>` yields the node for its own category and nothing for any other leaf category -/
 
 /-- General: for every hierarchy, node class and `K`, `view K n` answers the node iff `accept` calls the hook of `K`. -/
@@ -161,6 +196,8 @@ theorem C06_sink_is_terminal (h : Hier) (ov : Hook → Bool) {a : Abs} (hs : a.i
 example : rows.length ≥ 150 ∧ ifaces.length ≥ 150 ∧ srcClasses.length ≥ 150 := by decide +kernel
 example : ∃ r ∈ rows, Hook.abs .classic ∈ r.chain := by decide +kernel
 example : ∃ r ∈ rows, r.chain = [.abs .decl] := by decide +kernel
+example : redeclared.length ≥ 7 ∧ notRedeclarable.length = 4 := by decide +kernel
+example : ∃ p ∈ rows.zip handed, p.1.chain = [.abs .decl] ∧ p.1.category ∈ redeclared ∧ p.2.2 = [true] := by decide +kernel
 example : ∃ i ∈ ifaces, i.bases = [.node] := by decide +kernel
 /-- The model is not trivially true: a class stamped with a neighbour's hook is *not* viewed at its own category. -/
 example : view hier 7 { category := 7, accept := .leaf 8 } = false := by decide +kernel
